@@ -130,25 +130,23 @@ func shortcutUnits() []unit {
 func defaultsUnits() []unit {
 	defaults := []pair{{1, 1}, {1, 2}, {2, 3}, {3, 3}}
 	zeroPairs := []pair{{0, 0}, {0, 2}, {2, 0}, {0, 3}, {1, 2}, {-1, -1}}
-	if !ev.Thorough() {
-		zeroPairs = []pair{{0, 0}, {0, 2}, {2, 0}, {1, 2}}
-	}
+
 	type cfg struct {
 		n        int
 		alphabet []int
 	}
-	cfgs := []cfg{{2, fullAlphabet}, {3, tinyAlphabet}}
+	cfgs := []cfg{{2, fullAlphabet}, {3, minAlphabet}}
 	if ev.Thorough() {
 		cfgs = []cfg{{2, fullAlphabet}, {3, fullAlphabet}, {4, tinyAlphabet}}
 	}
 	for _, e := range []string{"pin", "block"} {
 		s := R.Sec("defaults/" + e)
 		s.Bounds["cluster_defaults"] = "(1,1),(1,2),(2,3),(3,3)  [(-1,-1) is the default of every other section]"
-		s.Bounds["requested_factors"] = "(0,0),(0,2),(2,0) resolved against the defaults, plus explicit (1,2); thorough adds (0,3) and (-1,-1)"
+		s.Bounds["requested_factors"] = "(0,0),(0,2),(2,0),(0,3) resolved against the defaults, plus explicit (1,2) and (-1,-1)"
 		if ev.Thorough() {
 			s.Bounds["peers"] = "2,3 (full alphabet), 4 (" + alphTiny + ")"
 		} else {
-			s.Bounds["peers"] = "2 (full alphabet), 3 (" + alphTiny + ")"
+			s.Bounds["peers"] = "2 (full alphabet), 3 (" + alphMin + ")"
 		}
 	}
 	var units []unit
@@ -202,7 +200,10 @@ func historyUnits() []unit {
 
 // ---- non-numeric value variants ---------------------------------------------
 
-var nonNumVariants = []string{"", "-1", "1.5", "1e3", "18446744073709551616", " 7", "0x10", "١٢"}
+// values that are not numbers under any reading (values such as "-1", "1.5",
+// "1e3" or "0x10" are deliberately left out: whether they count as numeric is
+// not settled by the property text)
+var nonNumVariants = []string{"", "n/a", "12abc", "--", "1 2", "free: 10"}
 
 func nonNumUnits() []unit {
 	s := R.Sec("non-numeric-values")
@@ -335,9 +336,7 @@ func independence(t *testing.T) {
 	sampMu.Lock()
 	ss := append([]sampled{}, samples...)
 	sampMu.Unlock()
-	sec := R.Sec("independence")
-	sec.Bounds["what"] = "a fixed every-k-th sample of the cases above is re-run, each on a fresh peer in a fresh bubble, and must show the same observation (same verdict, same list sizes; identical lists when the property leaves no freedom)"
-	sec.Bounds["sampled_cases"] = len(ss)
+	independenceSection()
 	var units []unit
 	for i, s := range ss {
 		s := s
@@ -345,14 +344,24 @@ func independence(t *testing.T) {
 			name: fmt.Sprintf("indep-%d", i),
 			opts: s.opts,
 			body: func(r *rig) {
+				if r.dry {
+					return
+				}
 				r.setMetrics(s.c.N, s.c.St, s.nn)
 				o := r.run(s.c)
 				r.report("independence", s.c, o)
-				if !sameObs(s.c, s.o, o) {
+				// (cases on which the oracle already fires are reported as
+				// violations; comparing them would only add noise)
+				if len(judge(s.c, s.o)) == 0 && len(judge(s.c, o)) == 0 && !sameObs(s.c, s.o, o) {
 					R.Broken("case gives different observations on a shared peer and on a fresh peer: %s: shared %s fresh %s", s.c, ev.JSON(s.o), ev.JSON(o))
 				}
 			},
 		})
 	}
 	runUnits(t, units)
+}
+
+func independenceSection() {
+	sec := R.Sec("independence")
+	sec.Bounds["what"] = "a fixed every-k-th sample of the cases of the other sections (except real-pubsubmon, where every metric vector already has its own peer) is re-run, each on a fresh peer in a fresh bubble, and must show the same observation (same verdict, same list sizes; identical lists when the property leaves no freedom); a difference is reported as a broken check"
 }
